@@ -16,6 +16,7 @@ import KyupyVerif.Drv.WaveIO
 import KyupyVerif.Drv.Cycle
 import KyupyVerif.Drv.CircNet
 import KyupyVerif.Drv.VerilogLib
+import KyupyVerif.Drv.SdfWave
 /-! Stateless driver extensions: each module `KyupyVerif/Drv/<Name>.lean` defines
 `handle : String → List String → Option String` (command word, remaining tokens → answer, or `none`
 when the command is not its own) and is listed in `extHandlers` below. -/
@@ -39,7 +40,8 @@ def extHandlers : List (String → List String → Option String) := [
   KV.Drv.WaveIO.handle,
   KV.Drv.Cycle.handle,
   KV.Drv.CircNet.handle,
-  KV.Drv.VerilogLib.handle
+  KV.Drv.VerilogLib.handle,
+  KV.Drv.SdfWave.handle
 ]
 
 def tryExt (cmd : String) (args : List String) : Option String :=
